@@ -2,6 +2,7 @@ package git
 
 import (
 	"regexp"
+	"sort"
 	"strconv"
 	"strings"
 )
@@ -68,8 +69,14 @@ func ParseLog(text string) {
 	} else if changeModeReg.MatchString(text) {
 		buildChangeMode(text)
 	} else if currentCommit.Rev != "" {
-		for _, value := range currentFileChangeMap {
-			currentFileChanges = append(currentFileChanges, value)
+		// the map has no order: the changes of a commit are listed by path
+		paths := make([]string, 0, len(currentFileChangeMap))
+		for path := range currentFileChangeMap {
+			paths = append(paths, path)
+		}
+		sort.Strings(paths)
+		for _, path := range paths {
+			currentFileChanges = append(currentFileChanges, currentFileChangeMap[path])
 		}
 
 		currentFileChangeMap = make(map[string]FileChange)
